@@ -457,6 +457,9 @@ func codecCheck(c *Ctx, prop string) error {
 		feat := featureOf(k.name)
 		res.Count("type:" + feat)
 		replay := map[string]any{"schema": k.x.req, "type": k.full, "value": jsonRaw(gen.PJ(k.val)), "real": o}
+		if al, _ := o["aliased"].(bool); al {
+			res.Violation("encoder_result_aliased", k.name+": the bytes MarshalJSON returned changed when another value of the type was encoded afterwards (the result shares memory with a later encoding)", replay)
+		}
 		if fault, _ := o["fault"].(string); fault != "" {
 			res.Violation("fault", k.name+": encoder "+fault, replay)
 			continue
